@@ -792,6 +792,8 @@ static int do_call(Exec *ex, ConnState &c, int dir, const Chunk &ch, long &consu
     g_in_data_call = false;
     g_cur_call = nullptr;
     { htp_tx_t *tx = dir == 0 ? cp->in_tx : cp->out_tx; if (tx) rec_for(ex, tx).msglen_at_call_end[dir] = (long) (dir == 0 ? tx->request_message_len : tx->response_message_len); }
+    // the last error record is handed out by a public getter: read it the way a caller would (a dangling record is a C01/C18 matter)
+    { htp_log_t *le = htp_connp_get_last_error(cp); if (le) { if (le->msg) touch(ex, (const unsigned char *) le->msg, strlen(le->msg)); if (le->file) touch(ex, (const unsigned char *) le->file, strlen(le->file)); } }
     if (buf) free(buf);   // the caller's chunk does not outlive the call: a later access is a use-after-free
     cr.rc = rc; cr.consumed = consumed; cr.ticks = g_seams.ticks - t0; cr.allocs = g_seams.n_total - a0;
     cr.conn_flags_after = cp->conn ? (unsigned) cp->conn->flags : 0; cr.ntx_after = cp->conn && cp->conn->transactions ? (int) htp_list_size(cp->conn->transactions) : -1; cr.next_tx_after = (int) cp->out_next_tx_index;
